@@ -30,7 +30,7 @@ ASSUMPTIONS = [
     'the exception is recorded as a diagnostic only',
     'stateful helpers (buffer, when, updating) are outside the statement and not generated',
 ]
-REQUIRED = {'late_built_nodes': 300, 'reads': 5000, 'reads_after_update': 2000, 'reads_raising': 200, 'watch_checks': 500, 'operator_forms': 60}
+REQUIRED = {'late_built_nodes': 300, 'reads': 5000, 'reads_after_update': 2000, 'reads_raising': 200, 'watch_checks': 500, 'operator_forms': 60, 'break_and_repair_plans': 100}
 
 _st = {}
 
@@ -265,7 +265,8 @@ def build(rng, P, rep, table_mode=False):
             else:
                 x, y = rng.choice(of('list')), rng.choice(of('num'))
                 h = lambda v, k=0: (v, k)    # noqa: E731
-                add(lambda: x.rx.rx.map(h, k=y.rx), lambda: [h(v, k=y.ev()) for v in x.ev()], f'map({x.desc},k={y.desc})', 'list', 'map:kwarg', (x, y))
+                add(lambda: x.rx.rx.map(h, k=y.rx), lambda: (lambda xs, k: [h(v, k=k) for v in xs])(x.ev(), y.ev()), f'map({x.desc},k={y.desc})', 'list',
+                    'map:kwarg', (x, y))
         elif k < 0.76:
             x, y, z = rng.choice(of('bool') + of('num')), rng.choice(nodes), rng.choice(nodes)
             if rng.random() < 0.5:
@@ -405,6 +406,16 @@ def run_case(idx, rng, P, rep):
 
     dirty = set()      # inputs whose most recent update raised out of the setter (remaining eager watchers did not run)
 
+    def subtree_exceptions(n, acc=None, depth=0):
+        acc = set() if acc is None else acc
+        for c in n.children:
+            o = outcome(c.ev)
+            if o[0] == 'exc':
+                acc.add(o[1])
+            if depth < 10:
+                subtree_exceptions(c, acc, depth + 1)
+        return acc
+
     def read(n):
         got = outcome(lambda: n.rx.rx.value)
         exp = outcome(n.ev)
@@ -423,6 +434,11 @@ def run_case(idx, rng, P, rep):
                 key = 'succeeds-but-plain-python-raises'
             elif got[0] == 'exc':
                 key = 'different-exception'
+                # two faults at once (the receiver lacks the method AND an argument expression raises): which one surfaces
+                # depends on the evaluation order of receiver and arguments, which the statement does not fix
+                if got[1] in subtree_exceptions(n):
+                    rep.count('reads_unjudged_two_faults')
+                    return True
             else:
                 key = 'stale-or-wrong-value'
             viol(f'{key}/{n.kind.split(":")[0]}', f'{n.desc[:200]}: rx gives {got!r}, plain Python gives {exp!r}', n)
@@ -433,12 +449,30 @@ def run_case(idx, rng, P, rep):
     if table_mode:
         for n in nodes:
             read(n)
+    POOLS = {'num': NUMV, 'str': STRV, 'list': LISTV, 'dict': DICTV, 'set': SETV}
+    plan = []        # forced (input, value) updates / reads: break one input of an expression, read, repair it, read again
     for step in range(steps):
-        if rng.random() < 0.4:
-            name = rng.choice(list(inputs))
-            setter, typ = inputs[name]
-            pool = {'num': NUMV, 'str': STRV, 'list': LISTV, 'dict': DICTV, 'set': SETV}[typ]
-            v = rng.choice(pool[:8] if rng.random() < 0.8 else pool)
+        if not plan and not table_mode and rng.random() < 0.08:
+            n = rng.choice(nodes)
+            if len(n.ins) >= 2 and outcome(n.ev)[0] == 'ok':
+                name = rng.choice(sorted(n.ins))
+                pool = POOLS[inputs[name][1]]
+                plan = [('set', name, rng.choice(pool[8:] or pool[-1:])), ('read', n), ('set', name, pool[0]), ('read', n)]
+                rep.count('break_and_repair_plans')
+        if plan and plan[0][0] == 'read':
+            n = plan.pop(0)[1]
+            hist.append(('read', n.desc[:80]))
+            read(n)
+            continue
+        if plan or rng.random() < 0.4:
+            if plan:
+                _, name, v = plan.pop(0)
+                setter, typ = inputs[name]
+            else:
+                name = rng.choice(list(inputs))
+                setter, typ = inputs[name]
+                pool = POOLS[typ]
+                v = rng.choice(pool[:8] if rng.random() < 0.8 else pool)
             before = [(n, outcome(n.ev)) for n, _ in watched]
             ncalls = [len(c) for _, c in watched]
             hist.append(('set', name, repr(v)))
